@@ -9,9 +9,17 @@ import (
 	"github.com/titpetric/vuego/internal/parser"
 )
 
+// maxIncludeDepth bounds the chain of nested includes, so that a template that includes
+// itself (directly or through other files) fails with an error instead of recursing forever.
+const maxIncludeDepth = 100
+
 // evalInclude processes a <template include="..."> tag with the given vars map.
 // Handles stack push/pop properly using defer to ensure cleanup even on error.
 func (v *Vue) evalInclude(ctx VueContext, node *html.Node, vars map[string]any, depth int) ([]*html.Node, error) {
+	if len(ctx.TemplateStack) > maxIncludeDepth {
+		return nil, fmt.Errorf("include depth exceeded maximum of %d, possible circular include: %s", maxIncludeDepth, ctx.FormatTemplateChain())
+	}
+
 	ctx.stack.Push(vars)
 	defer ctx.stack.Pop()
 
@@ -55,12 +63,14 @@ func (v *Vue) evalInclude(ctx VueContext, node *html.Node, vars map[string]any, 
 		return nil, fmt.Errorf("error in %s (included from %s): %w", name, ctx.FormatTemplateChain(), err)
 	}
 
+	// The component is evaluated with its own name appended to the include chain
+	childCtx := ctx.WithTemplate(name)
+
 	// Validate and process template tag
-	processedDom, err := v.evalTemplate(ctx, compDom, ctx.stack.EnvMap(), depth+1)
+	processedDom, err := v.evalTemplate(childCtx, compDom, ctx.stack.EnvMap(), depth+1)
 	if err != nil {
 		return nil, fmt.Errorf("error in %s (included from %s): %w", name, ctx.FormatTemplateChain(), err)
 	}
 
-	childCtx := ctx.WithTemplate(name)
 	return v.evaluate(childCtx, processedDom, depth+1)
 }
